@@ -99,10 +99,25 @@ class Checker(object):
             t = types[name]
             s = env.formula_manager.Symbol(name, B.to_pytype(t, env))
             asg[s] = B.build(R.value_to_bp(v, t), env)
-        model = EagerModel(asg, env)
+        self.nmodels = getattr(self, 'nmodels', 0) + 1
+        # the assignment is handed over in every form dict() accepts: a
+        # dictionary, a list of pairs, a one-shot iterator of pairs,
+        # another model
+        form = (self.nmodels // 3) % 5
+        if form == 1:
+            model = EagerModel(list(asg.items()), env)
+        elif form == 2:
+            model = EagerModel(zip(list(asg.keys()), list(asg.values())),
+                               env)
+        elif form == 3:
+            model = EagerModel((kv for kv in list(asg.items())), env)
+        elif form == 4:
+            model = EagerModel(iter(EagerModel(asg, env)), env)
+        else:
+            model = EagerModel(asg, env)
+        self.rep.count('model_built_from_form_%d' % form)
         # the caller goes on using its own dictionary: the model is the
         # assignment it was given, not whatever the dictionary becomes
-        self.nmodels = getattr(self, 'nmodels', 0) + 1
         if self.nmodels % 3 == 1:
             asg.clear()
             self.rep.count('caller_dict_mutated_after_model')
